@@ -202,6 +202,14 @@ def part_errdisc(ctx):
     ctx.explanation += ("R-ERRDISC: every call of an H3Error-returning function uses the returned code, except the frozen, individually justified (caller, callee) exceptions. ")
 
 
+def part_idx(ctx):
+    from . import rules_idx
+    n = rules_idx.check(ctx, "release", ctx.tier, ir.exported_api())
+    ctx.explanation += ("R-IDX: every exported function taking an index is explored (fully inlined) with the base-cell field assumed 122..127 and the "
+                        "reserved/direction field 7: no table subscript that depends on the field may be reachable with a value at or beyond the table's extent "
+                        "(quick tier: the %d anchor functions; thorough: all). " % len(rules_idx.QUICK_FUNCS))
+
+
 def part_fmt(ctx):
     from . import rules_fmt
     n = rules_fmt.check(ctx, module("release", "ssa"), "release")
@@ -230,7 +238,7 @@ PARTS = {
     "C09": [part_guards("C09"), part_tables(["T1", "T2", "T3", "T10", "T14"]), part_ovf, part_wit("C09")],
     "C10": [part_guards("C10"), part_tables(["T8", "T12"]), part_cform("C10"), part_wit("C10")],
     "C11": [part_guards("C11"), part_tables(["T8", "T12", "T7"], {"T7": ["pentagonDirectionFaces"]}), part_wit("C11")],
-    "C12": [part_guards("C12"), part_ret, part_errdisc, part_ovf, part_bw(None), part_cform("C12"), part_wit("C12")],
+    "C12": [part_guards("C12"), part_ret, part_errdisc, part_ovf, part_idx, part_bw(None), part_cform("C12"), part_wit("C12")],
     "C13": [part_guards("C13"), part_cform("C13"), part_wit("C13")], "C14": [part_guards("C14"), part_bw("C14"), part_cform("C14")], "C15": [part_guards("C15"), part_bw("C15"), part_wit("C15")],
     "C19": [part_tables(["T5", "T9"]), part_bw("C19"), part_cform("C19"), part_wit("C19")],
     "C20": [part_guards("C20"), part_fmt, part_wit("C20")],
